@@ -186,4 +186,26 @@ PROPS = {
                        "a rejected job comes back intact and runs when retried, a job dispatched after the workers retired still runs, nothing hangs."),
         "level_note": "Sequentially consistent interleavings only. 'Pool threads running jobs at once' is observed through the jobs themselves (a gauge incremented at job start), not through thread counts.",
     },
+    "C06": {
+        "title": "Descriptors are closed exactly once, never in use, never leaked (cross-thread handle half; the in-flight-operation and descriptor-producing-operation halves need Engine K)",
+        "engine": "T",
+        "package": "check-t",
+        "bin": "check-t",
+        "design_ref": "§5, §7 C06 (T part)",
+        "technique": "deterministic simulation: the real SharedFd (feature sync, hook H6) shared by 1-3 holder threads and one or two awaiting take() calls on shuttle coroutines with decider-driven context switches; instrumented owned descriptor (close counter, in-use probe), hang classification at quiescence, deadlock oracle; choice-sequence minimisation and replay",
+        "tiers": {
+            "quick": {"runs": 200_000, "time_limit_s": 60},
+            "thorough": {"runs": 30_000_000, "time_limit_s": 1500},
+        },
+        "rule": T_RULE,
+        "real": ["compio-driver::fd (SharedFd::new/clone/drop/take/try_unwrap) with features `sync` and `verif`", "synchrony sync::{shared::Shared = Arc, atomic, waker_slot = futures AtomicWaker} (unmodified; atomic between hook points)"],
+        "stub": T_STUB,
+        "assumptions": T_ASSUME + [
+            "scheduling points sit at the hook sites inside SharedFd::take and SharedFd::drop (before the count check, before the wake, and between the wake and the implicit release of the reference); Arc clone/drop elsewhere are atomic",
+            "only the handle-sharing half of C06 is decided here: 'never closed while an operation is in flight' and 'descriptors produced by cancelled operations are closed or delivered' need the simulated kernel",
+        ],
+        "level_text": ("Seeded exploration of interleavings of clone / drop on holder threads with a take().await (and a competing second take()): the owned descriptor is dropped exactly once, not before every other handle has begun to let go, "
+                       "take() resolves once the last other handle is gone (a wait that can never end is reported with the facts that identify it), a losing take() yields None."),
+        "level_note": "Partial claim (cross-thread handle sharing). One open known finding: the wake precedes the release in SharedFd::drop.",
+    },
 }
